@@ -130,7 +130,7 @@ func checkC06(c *Ctx) {
 	}
 
 	// ---- C06.2
-	r.Rule("C06.2", "a registration cannot become valid before its covert was overwritten with the checked literal", 1)
+	r.Rule("C06.2", "a registration cannot become valid before its covert was overwritten with the checked literal", 2)
 	if f := c.fn("C06.2", lib, "RegistrationManager", "ingestRegistration"); f != nil {
 		var add *ssa.Call
 		for _, ci := range callsIn(f, shortIs("AddRegistration")) {
@@ -164,12 +164,57 @@ func checkC06(c *Ctx) {
 		}
 	}
 
+	// C06.2b: the instance that becomes valid carries the checked covert. register() validates the TRACKED instance
+	// (looked up by phantom + identifier), which need not be the delivery that passed admission.
+	if f := c.fn("C06.2", lib, "RegisteredDecoys", "register"); f != nil {
+		var dparam *ssa.Parameter
+		for _, p := range f.Params {
+			if strings.HasSuffix(typeShort(p.Type()), "lib.DecoyRegistration") {
+				dparam = p
+			}
+		}
+		n := 0
+		for _, st := range fieldStores(f, "lib.DecoyRegistration", "Valid") {
+			cv, isC := constOf(st.Val)
+			if !isC || cv.String() != "true" || dparam == nil {
+				continue
+			}
+			n++
+			x := pathOf(st.Addr.(*ssa.FieldAddr).X)
+			d := dparam.Name()
+			if x == d {
+				r.OK("C06.2", "register: the instance marked valid is the delivery that passed admission", st.Pos(), "Valid stored on the parameter itself")
+				continue
+			}
+			isAdopt := func(in ssa.Instruction) bool {
+				s2, ok := in.(*ssa.Store)
+				if !ok {
+					return false
+				}
+				o, fld, ok := fieldOwner(s2.Addr)
+				return ok && o == "lib.DecoyRegistration" && fld == "Covert" && pathOf(s2.Addr.(*ssa.FieldAddr).X) == x && pathOf(s2.Val) == d+".Covert"
+			}
+			same := edgesEstablishing(f, atomMatcher(Atom{"(" + orderEq(d, x) + ")", true}))
+			stale, w := reach(f, nil, isInstr(st), isAdopt, same)
+			if stale {
+				r.Bad("C06.2", "register: validates the tracked instance without adopting the checked covert of the delivery that passed admission", st.Pos(), fnName(f),
+					"register() sets Valid on "+firstN(x, 40)+" (the instance found by phantom and identifier), not on its argument: when another delivery with the same secret but a different covert was tracked first (two concurrent workers, or a re-registration), the instance that becomes usable still carries a covert string that was refused or never checked, and Proxy dials it", r.blockPath(f, w)...)
+			} else {
+				r.OK("C06.2", "register: the tracked instance adopts the covert of the delivery that passed admission before it becomes valid", st.Pos(), "must-pass "+x+".Covert = "+d+".Covert unless the two are the same object")
+			}
+		}
+		if n == 0 {
+			r.Unk("C06.2", "register: Valid = true", f.Pos(), fnName(f), "store not found")
+		}
+	}
+
 	// ---- C06.3
-	r.Rule("C06.3", "writers of DecoyRegistration.Covert", 2)
+	r.Rule("C06.3", "writers of DecoyRegistration.Covert", 3)
 	for _, f := range c.P.RepoFuncs() {
 		for _, st := range fieldStores(f, "lib.DecoyRegistration", "Covert") {
 			name := f.Name()
-			okW := (name == "NewRegistration" && freshRoot(st.Addr, f)) || name == "ingestRegistration"
+			okW := (name == "NewRegistration" && freshRoot(st.Addr, f)) || name == "ingestRegistration" ||
+				(name == "register" && strings.HasSuffix(pathOf(st.Val), ".Covert")) // adoption of the checked covert (C06.2b)
 			r.Check(okW, "C06.3", fnName(f)+": writes DecoyRegistration.Covert", st.Pos(), fnName(f), "reviewed writer",
 				"the covert address of a registration is written outside construction and the admission step: a checked address can be replaced after the check")
 		}
